@@ -108,17 +108,22 @@ theorem c17_tracer_last (c : Cfg) (hf : Fixed c) (hn : 0 < c.n) (sched : List Na
   have h := inv_run hf sched _ (inv_init c hf hn)
   exact ⟨h.tracerLast, fun hp hc => ⟨(inv_tracer_in_chain h hp hc).1, (inv_tracer_in_chain h hp hc).2.2⟩⟩
 
-/-- **Late initialisation.** A default-constructed object initialised through `get_promise()` (mode `gp`; the same
-holds for `init_if_needed()` + `operator<<`, mode `ls`) never crashes, and once the construction is complete the promise
-has been handed out and, while pending, the tracer holds the extra reference — i.e. it behaves like any other
-shared_future (all theorems above cover these modes). -/
-theorem c17_late_init (c : Cfg) (hf : Fixed c) (hn : 0 < c.n) (hm : c.mode = Mode.gp ∨ c.mode = Mode.ls) (sched : List Nat) :
+/-- **Late initialisation.** A default-constructed object initialised through `get_promise()` (mode `gp`; mode `ip`:
+`init_if_needed()` first and the other threads' copies taken BEFORE `get_promise()` — they share the state that
+`get_promise()` then initialises, so `c17_same_result` / `c17_awaiters_once` speak about those copies; mode `ls`:
+`init_if_needed()` + `operator<<`) never crashes, and once the construction is complete the promise has been handed
+out and, while pending, the tracer holds the extra reference — i.e. it behaves like any other shared_future (all
+theorems above cover these modes).  `Pre` (contract of future.h, asserted by the code): a state is awaited only after
+`get_promise()` has initialised it (the handle threads wait for the end of the construction), and `get_promise()` is
+called once, on an object without a state or with a fresh `init_if_needed()` state (not on a pending or resolved one). -/
+theorem c17_late_init (c : Cfg) (hf : Fixed c) (hn : 0 < c.n) (hm : c.mode = Mode.gp ∨ c.mode = Mode.ip ∨ c.mode = Mode.ls)
+    (sched : List Nat) :
     (run c (init c) sched).crashed = false ∧
     ((run c (init c) sched).constructed = true →
       (run c (init c) sched).published = true ∧
       ((run c (init c) sched).slot ≠ Slot.ready → (run c (init c) sched).tracerRef = true)) := by
   have h := inv_run hf sched _ (inv_init c hf hn)
-  have hpm : c.mode.hasPromise = true := by rcases hm with e | e <;> (rw [e]; rfl)
+  have hpm : c.mode.hasPromise = true := by rcases hm with e | e | e <;> (rw [e]; rfl)
   refine ⟨h.noCrash, fun hc => ⟨?_, fun hp => ?_⟩⟩
   · cases hq : (run c (init c) sched).published
     · have h1 := h.pubCtor hq hpm
@@ -156,6 +161,13 @@ example : (run exDropCfg (init exDropCfg) [0, 0, 0, 0, 0, 1, 2, 2, 2]).freed = 1
 /-- late initialisation through `get_promise()` -/
 def exGpCfg : Cfg := { n := 2, mode := Mode.gp, rtid := 1, rk := RK.value 1, prog := fun _ => [Act.await WK.sync] }
 example : (run exGpCfg (init exGpCfg) [0, 0, 0, 0, 0]).constructed = true ∧ (run exGpCfg (init exGpCfg) [0, 0, 0, 0, 0]).tracerRef = true := by decide
+
+/-- copies taken between `init_if_needed()` and `get_promise()` observe the result of that promise -/
+def exIpCfg : Cfg := { n := 3, mode := Mode.ip, rtid := 2, rk := RK.value 9, prog := fun t => if t = 1 then [Act.await WK.sync] else [] }
+example : (run exIpCfg (init exIpCfg) [0]).refs = 2 ∧ (run exIpCfg (init exIpCfg) [0]).held 1 = 1 ∧
+    (run exIpCfg (init exIpCfg) [0]).constructed = false := by decide
+example : (runEv exIpCfg [0, 0, 0, 0, 0, 1, 1, 1, 1, 2, 2, 2, 1, 1, 2]).2.filter isObsEv = [Ev.obs 1 WK.sync (Obs.val 9)] ∧
+    (runEv exIpCfg [0, 0, 0, 0, 0, 1, 1, 1, 1, 2, 2, 2, 1, 1, 2]).1.freed = 1 := by decide
 
 /-! ## The two defects of the pinned commit, as-is variants of the step, certified on concrete runs -/
 
